@@ -103,12 +103,8 @@ probes!(
     collapse_miss,
     dense_index_checked,
     realloc_moved,
-    capacity_changed_with_live,
     reread_all,
     handles_reread,
-    repr_switch_seen,
-    spill_seen,
-    chonk_seen,
     refusal_fired,
     retired,
     extend_call,
@@ -118,14 +114,13 @@ probes!(
     iter_clone_checked,
     debug_checked,
     heap_checked,
-    alloc_free_push_batch,
-    log_growth_checked,
-    row_longer_than_all_earlier,
-    new_column_after_rows,
     laws_checked,
+    huge_zst_item_pushed,
+    push_after_offsets_exceed_u32,
+    row_longer_than_all_earlier,
+    roomy_vec_form_used,
     scratch_longer,
     scratch_shorter,
-    scratch_other_variant,
 );
 
 pub struct Cx {
